@@ -653,8 +653,8 @@ Proof.
     destruct (is_nil (false_positions (map (eval_utd d t) (uptodate df)) 0)) eqn:E1; simpl;
     destruct (is_nil (file_dep df) && is_nil (evaluated (map (eval_utd d t) (uptodate df)))) eqn:E2; simpl;
     destruct (is_nil (filter (fun x => negb (exists_ fs x)) (targets df))) eqn:E3; simpl;
-    destruct (ck_changed c (getrec d t)) eqn:E4; simpl; rewrite ?E; simpl;
-    destruct ch; simpl; try reflexivity; rewrite ?orb_true_r; reflexivity.
+    destruct (ck_changed c (getrec d t)) eqn:E4; simpl; rewrite ?E; simpl; rewrite ?orb_true_r; simpl;
+    try reflexivity; apply final_status_decided_nomissing.
   - pose proof (check_files_no_error md5 v c fs (getrec d1 t) true (file_dep df)) as Hne.
     specialize (Hne (fun f0 Hf E' => Hex f0 Hf (proj1 (file_verdict_missing c fs _ f0) E')) [] []).
     rewrite E in Hne. destruct Hne.
@@ -1278,6 +1278,85 @@ Proof.
       - intros X. f_equal. apply A. destruct (g_status (get_status md5 v c fs d (l_name t) df false)); try discriminate; reflexivity.
       - intros X. inversion X as [X']. apply A in X'. rewrite X'. reflexivity. }
     intros Hex. simpl. rewrite (get_status_modes_agree md5 v c fs d (l_name t) df Hex Hnc). reflexivity.
+Qed.
+
+(* ---- the repaired DependencyStatus (fixL of Model/Status.v): the first reason decides ---- *)
+(* get_status: the accumulate-all mode answers what the stop-at-the-first-reason mode answers, in every case
+   (up-to-date, run, error), whatever files are missing.  The TypeError of Status.v ([Crash]: a state saved by the
+   other checker handed to MD5Checker) is the one exception, stated exactly: get_log=True compares EVERY file
+   dependency, get_log=False stops at the first reason, so get_log=True can meet a TypeError that get_log=False does
+   not reach -- never the other way round --, and there is none at all on a well-typed record *)
+Lemma T_info_agrees : forall (md5 : N -> N) (v : ver) (c : ck) (fs : fsys) (d : db) (t : name) (df : tdef),
+  fixL v = true ->
+  let gl := g_status (get_status md5 v c fs d t df true) in
+  let gn := g_status (get_status md5 v c fs d t df false) in
+  (gl <> Crash -> gl = gn) /\
+  (gn = Crash -> gl = Crash) /\
+  (rec_typed (getrec d t) -> gl = gn /\ gl <> Crash) /\
+  (gl <> Crash -> status_is_ignore d t = false -> decision_of_status gl = run_decision md5 v c fs d t df).
+Proof.
+  intros md5 v c fs d t df HL. cbv zeta.
+  split; [exact (get_status_modes_agree_fixL md5 v c fs d t df HL)|].
+  split; [exact (get_status_crash_modes md5 v c fs d t df)|].
+  split.
+  - intros Hty. split; [exact (get_status_modes_agree_typed md5 v c fs d t df HL Hty) | exact (get_status_no_crash md5 v c fs d t df true Hty)].
+  - intros Hnc Hig. unfold run_decision. rewrite Hig. rewrite (get_status_modes_agree_fixL md5 v c fs d t df HL Hnc). reflexivity.
+Qed.
+
+(* `info T` answered (anything but the TypeError): the status line is the decision of `run` on the merged definition --
+   ignored, up-to-date, run or error -- with no hypothesis on the file system *)
+Lemma T_info_cmd_agrees : forall (md5 : N -> N) (v : ver) (iv : iver) (cv : name -> cvals) (tb : table)
+    (n : name) (t : ltask) (c : ck) (fs : fsys) (d : db) (st : istatus) (lines : list iline) (rc : Z) (d' : db),
+  fixL v = true -> fixCalc iv = true -> fixIgn iv = true ->
+  lookup tb n = Some t ->
+  info_cmd md5 v iv cv tb [n] false c fs d = IOk st lines rc d' ->
+  istatus_decision st = Some (run_decision md5 v c fs d (l_name t) (run_def tb (saved_cv cv d) t)).
+Proof.
+  intros md5 v iv cv tb n t c fs d st lines rc d' HL Hc Hi Hl H.
+  destruct (info_cmd_status md5 v iv cv tb n t c fs d st lines rc d' Hl H) as [(Ei & -> & _)|(Ei & Hst)].
+  - rewrite Hi in Ei. simpl in Ei. unfold run_decision. rewrite Ei. reflexivity.
+  - cbv zeta in Hst. destruct Hst as (-> & Hnc & _ & _). rewrite Hi in Ei. simpl in Ei.
+    unfold shown_def in *. rewrite Hc in *.
+    set (df := run_def tb (saved_cv cv d) t) in *.
+    unfold run_decision. rewrite Ei. simpl.
+    rewrite (get_status_modes_agree_fixL md5 v c fs d (l_name t) df HL Hnc). reflexivity.
+Qed.
+
+(* `info T` on a task of the table ends in the TypeError exactly when get_status(get_log=True) does; never on a
+   well-typed record *)
+Lemma T_info_cmd_answers : forall (md5 : N -> N) (v : ver) (iv : iver) (cv : name -> cvals) (tb : table)
+    (n : name) (t : ltask) (c : ck) (fs : fsys) (d : db),
+  lookup tb n = Some t ->
+  (exists st lines rc d', info_cmd md5 v iv cv tb [n] false c fs d = IOk st lines rc d') \/
+  (fixIgn iv && status_is_ignore d (l_name t) = false /\
+   g_status (get_status md5 v c fs d (l_name t) (shown_def iv cv tb d t) true) = Crash /\
+   exists d', info_cmd md5 v iv cv tb [n] false c fs d = ICrash d').
+Proof.
+  intros md5 v iv cv tb n t c fs d Hl. unfold info_cmd. rewrite Hl.
+  destruct (fixIgn iv && status_is_ignore d (l_name t)) eqn:Ei; simpl.
+  - left. repeat eexists.
+  - destruct (g_status (get_status md5 v c fs d (l_name t) (shown_def iv cv tb d t) true)) eqn:Es;
+      [left; repeat eexists | left; repeat eexists | left; repeat eexists | right; split; [reflexivity|]; split; [reflexivity|]; eexists; reflexivity].
+Qed.
+
+(* in EVERY state reached by a history (Model/History.v; no freshness hypothesis), on every table and for every
+   task of it: `info T` answers, and its status line is the decision of `run` *)
+Lemma T_info_cmd_agrees_reachable : forall (md5 : N -> N) (size_of : N -> Z) (ops : list op) (iv : iver) (cv : name -> cvals) (tb : table)
+    (n : name) (t : ltask),
+  fixCalc iv = true -> fixIgn iv = true ->
+  lookup tb n = Some t ->
+  let s := run md5 size_of current ops in
+  exists st lines rc d',
+    info_cmd md5 current iv cv tb [n] false (s_ck s) (s_fs s) (s_db s) = IOk st lines rc d' /\
+    istatus_decision st = Some (run_decision md5 current (s_ck s) (s_fs s) (s_db s) (l_name t) (run_def tb (saved_cv cv (s_db s)) t)).
+Proof.
+  intros md5 size_of ops iv cv tb n t Hc Hi Hl. cbv zeta.
+  destruct (T_info_cmd_answers md5 current iv cv tb n t
+              (s_ck (run md5 size_of current ops)) (s_fs (run md5 size_of current ops)) (s_db (run md5 size_of current ops)) Hl)
+    as [(st & lines & rc & d' & H)|(_ & Hcr & _)].
+  - exists st, lines, rc, d'. split; [exact H|].
+    exact (T_info_cmd_agrees md5 current iv cv tb n t _ _ _ st lines rc d' eq_refl Hc Hi Hl H).
+  - exfalso. revert Hcr. apply T_reachable_no_typeerror.
 Qed.
 
 (* ================================================================== clean [--dry-run] over clean lists
